@@ -59,7 +59,8 @@ def mpi_options(rng):
 def gen_paje_scenario(rng, platform):
     na = rng.randint(2, 7)
     names = ["a%d" % i for i in range(na)]
-    lines = ["PLATFORM " + PLAT + platform, "CAT compute", "CAT data", "HVAR load", "LVAR traffic", "MARK phase begin", "HSTATE MYSTATE busy"]
+    lines = ["PLATFORM " + PLAT + platform, "CAT compute", "CAT data", "HVAR load", "LVAR traffic", "MARK phase begin"]
+    lines += ["HSTATE ST_%s busy" % n for n in names]      # one user state type per actor: its pushes and pops are its own
     mboxes = ["mb%d" % i for i in range(rng.randint(1, 3))]
     vm_user = rng.randrange(na) if rng.random() < 0.35 else -1
     for i, name in enumerate(names):
@@ -69,7 +70,7 @@ def gen_paje_scenario(rng, platform):
         vm_state = None
         for _ in range(rng.randint(1, 9)):
             k = rng.choice(["sleep", "sleep", "exec", "exec", "send", "recv", "dsend", "sendt", "recvt", "migrate", "suspend",
-                            "kill", "hvar", "lvar", "mark", "hstate", "pexec", "yield", "vm"])
+                            "kill", "rmigrate", "hvar", "lvar", "mark", "hstate", "pexec", "yield", "vm"])
             if k == "sleep":
                 lines.append("sleep %g" % rng.choice([0.1, 0.5, 1, 2]))
             elif k == "exec":
@@ -88,6 +89,10 @@ def gen_paje_scenario(rng, platform):
                 lines.append("recvt %s %g" % (rng.choice(mboxes), rng.choice([0.01, 0.5, 2])))
             elif k == "migrate":
                 lines.append("migrate %d" % rng.randrange(16))
+            elif k == "rmigrate":
+                other = rng.choice(names)
+                if other != name and rng.random() < 0.5:
+                    lines.append("rmigrate %s %d" % (other, rng.randrange(16)))
             elif k == "suspend":
                 other = rng.choice(names)
                 if other != name:
@@ -104,13 +109,13 @@ def gen_paje_scenario(rng, platform):
                 lines.append("mark phase begin")
             elif k == "hstate":
                 if hdepth > 0 and rng.random() < 0.6:
-                    lines.append("hstate pop MYSTATE -")
+                    lines.append("hstate pop ST_%s -" % name)
                     hdepth -= 1
                 elif rng.random() < 0.2:
-                    lines.append("hstate set MYSTATE busy")
+                    lines.append("hstate set ST_%s busy" % name)
                     hdepth = 1
                 else:
-                    lines.append("hstate push MYSTATE busy")
+                    lines.append("hstate push ST_%s busy" % name)
                     hdepth += 1
             elif k == "yield":
                 lines.append("yield")
@@ -121,7 +126,7 @@ def gen_paje_scenario(rng, platform):
                     lines.append("vm %s vm%d %d" % (nxt, i, rng.randrange(16)))
                     vm_state = nxt
         while hdepth > 0:
-            lines.append("hstate pop MYSTATE -")
+            lines.append("hstate pop ST_%s -" % name)
             hdepth -= 1
         lines.append("END")
     return "\n".join(lines) + "\n"
@@ -235,7 +240,7 @@ def validate(ctx, units, tag):
                 v = vlib.parse_tla_value(x)
                 gl = v[1]
                 j = max(k for k in range(len(b)) if starts[k] <= gl)
-                res.setdefault(b[j], []).append((gl - starts[j], v[2], v[3], v[4]))
+                res.setdefault(b[j], []).append((gl - starts[j], v[2], v[3], v[4] + ("|" + v[5] if v[5] else "")))
         return res, r
 
     for res, r in vlib.parallel_map(one, list(enumerate(batches)), nproc=6):
@@ -245,9 +250,10 @@ def validate(ctx, units, tag):
 
 
 def signature(ev, reason, reason2, lastk, tnames):
+    lastk, _, reinc = lastk.partition("|")
     if reason == "time-decreases":
         return "C47:time-decreases:%s:after:%s" % (ev["e"], lastk)
-    return "C47:%s:%s:%s" % (reason, ev["e"], tnames.get(ev["type"], ev["type"]))
+    return "C47:%s:%s:%s%s" % (reason, ev["e"], tnames.get(ev["type"], ev["type"]), ":" + reinc if reinc else "")
 
 
 def run_mc(ctx):
@@ -280,6 +286,8 @@ def run(ctx):
         nev += len(ev)
         for e in ev:
             kinds[e["e"]] = kinds.get(e["e"], 0) + 1
+            if e.get("extra_fields"):
+                ctx.cov["events_with_undeclared_extra_fields"] = ctx.cov.get("events_with_undeclared_extra_fields", 0) + 1
         dyn = any(e["e"] in ("CreateContainer", "DestroyContainer") and e["time"] for e in ev) or \
             any(e["e"] == "PushState" for e in ev)
         ctx.count([case.get("prog"), case.get("scenario"), case.get("seed"), case.get("np"), case.get("platform"), case["opts"]],
